@@ -725,7 +725,7 @@ func classifyA(c CaseA) core.Class {
 	if len(e.MustFail) > 0 {
 		kind = "unencodable:" + e.MustFail[0]
 	} else if e.Grey {
-		kind = "grey-hours"
+		kind = "grey"
 	}
 	cl.Labels = append(cl.Labels, kind)
 	tr := "http"
@@ -749,7 +749,7 @@ func classifyA(c CaseA) core.Class {
 		cl.Labels = append(cl.Labels, "transport:http", fmt.Sprintf("hosts:%d", len(l.Hosts)), "host-ports:"+hp, fmt.Sprintf("portconn-set:%v", l.PortConn != ""),
 			fmt.Sprintf("headers:%d", len(l.Headers)), fmt.Sprintf("host-header:%v", l.HostHeader != ""), fmt.Sprintf("uris:%d", len(l.Uris)),
 			fmt.Sprintf("proxy:%v", l.ProxyEnabled), "rotation:"+l.HostRotation, fmt.Sprintf("secure:%v", l.Secure), fmt.Sprintf("hours-set:%v", l.WorkingHours != ""))
-		tr = fmt.Sprintf("http|%s|pc=%v|hh+h=%v", hp, l.PortConn != "", l.HostHeader != "" && len(l.Headers) > 0)
+		tr = fmt.Sprintf("http|%s|hh+h=%v", hp, l.HostHeader != "" && len(l.Headers) > 0)
 	}
 	nd := nonDefaults(o)
 	cl.NonTrivial = nd >= 2 || len(e.MustFail) > 0
@@ -772,7 +772,7 @@ func TestC13a(t *testing.T) {
 	core.Run(t, core.Spec[CaseA]{
 		Property: "C13", Sub: "a",
 		Rule: "build options as the client sends them (every combo-box choice of Sleep Technique, Sleep Jmp Gadget, Proxy Loading, Amsi/Etw Patch, Injection Alloc/Execute; both check boxes; Sleep 0..2^31-1 and Jitter 0..100 incl. boundaries; spawn paths incl. spaces and non-BMP characters) x listener (HTTP: 1-4 hosts with/without ':port', PortConn set/unset with PortBind fallback, TLS, user agent, 0-4 headers +/- host header, 0-4 URIs, proxy with/without credentials, method spelling, rotation, kill date, working hours; SMB: pipe name, kill date, working hours), 30% spoiled with one or two unencodable settings (method GET, non-numeric / out-of-range port in PortConn, PortBind or a host, malformed / out-of-range / inverted working hours, non-numeric sleep or jitter, jitter outside 0..100). Builder driven as dispatch.go does; oracle: PatchConfig() bytes parsed by a transcription of DemonConfig() equal the chosen options (integers as the Demon's C headers define them) and listener settings; a second Builder on the same listener yields identical bytes and the listener's config stays deep-equal to a copy; unencodable => error and no bytes. Non-trivial: >=2 options away from the client's defaults, or an unencodable setting; distinct = (outcome class, technique, gadget, #non-defaults, transport shape)",
-		Gen:   genA, Check: checkA, Classify: classifyA,
+		Gen:  genA, Check: checkA, Classify: classifyA,
 		Assumptions: []string{
 			"option strings are exactly the choices the client's payload dialog offers; the config document has the client's shape (all keys present)",
 			"hosts are names or IPv4 addresses that are not names of local network interfaces (the builder resolves interface names)",
